@@ -15,4 +15,5 @@ def run(F, rep):
     dt_compress.extender_table(F, rep, "C01.1", graph_route=False)
     dt_compress.hash_builder_table(F, rep, "C01.2")
     dt_compress.hash_driver_table(F, rep, "C01.4")
+    dt_compress.entry_points_table(F, rep, "C01.4")
     dt_compress.node_storage_rules(F, rep, "C01.5")
